@@ -171,9 +171,13 @@ struct ScSearch
 {
   const std::vector<std::vector<Rec>> & hist; bool realTime;
   std::unordered_set<uint64_t> dead; uint64_t nodes = 0; bool gaveUp = false;
-  ScSearch(const std::vector<std::vector<Rec>> & h, bool rt) : hist(h), realTime(rt) {}
+  int finalTask = -1;   // observations made after the join: eligible only when every other thread is done
+  ScSearch(const std::vector<std::vector<Rec>> & h, bool rt, int fin = -1) : hist(h), realTime(rt), finalTask(fin) {}
   bool allowed(const std::vector<size_t> & pos, size_t k) const
   {
+    if ((int)k == finalTask) {
+      for (size_t j = 0; j < hist.size(); ++j) {if (j != k && pos[j] < hist[j].size()) {return false;}}
+    }
     if (!realTime) {return true;}
     const Rec & x = hist[k][pos[k]];
     for (size_t j = 0; j < hist.size(); ++j) {
